@@ -765,7 +765,10 @@ fn push_prefix(
     let mut child = None;
     if let Some(node) = node {
         for it in &mut node.children {
-            if it.label == *label {
+            /* A compression pointer holds a 14 bit offset, so labels written at or beyond
+             * offset 16384 can't be pointed at.
+             */
+            if it.label == *label && it.data < 0x4000 {
                 child = Some(&mut *it);
             }
         }
